@@ -694,13 +694,16 @@ func ashiftRule(w *World, r *Report) {
 				shl = append(shl, x)
 			case token.SHR:
 				shr = append(shr, x)
-			case token.QUO, token.REM:
-				// division of the index truncates toward zero
-				if stripConv(x.X) == ssa.Value(f.Params[0]) {
+			case token.QUO:
+				// division of the index truncates toward zero, unless the quotient is corrected
+				// with the remainder (floor division idiom)
+				if stripConv(x.X) == ssa.Value(f.Params[0]) && !floorDivIdiom(f, x) {
 					bad = "uses " + x.Op.String() + " on the index (" + shortInstr(x) + ")"
 				} else {
 					other = "uses " + x.Op.String() + " (" + shortInstr(x) + ")"
 				}
+			case token.REM:
+				other = "uses " + x.Op.String() + " (" + shortInstr(x) + ")"
 			case token.MUL:
 				// index * 2^shift (a table of powers of two) scales up exactly: not a shift the
 				// rule reads, not wrong either
